@@ -201,6 +201,7 @@ class Run:
             dispatches = 0
             need = max(len(sc['script']), len(sc.get('script2', ()))) + 3
             steps = 0
+            batch = 0
             while steps < 60:
                 steps += 1
                 if loop._ready:
@@ -220,15 +221,24 @@ class Run:
                     ext = None
                     continue
                 tick_before = dict(self.ntick)
+                # one loop iteration = every handle that is ready or due when it starts, as in BaseEventLoop._run_once:
+                # a handle queued while it runs (call_soon, call_soon_threadsafe) waits for the next iteration
                 if loop._ready:
+                    if batch <= 0:
+                        batch = loop.collect_due_timers()
                     loop.run_one_ready()
                 else:
                     m = self.models.get(which)
                     Iw = (m.I if m else I) or 1
                     c = self.choose(4)
                     at = h.when() + [0.0, -RES / 2, 0.4 * Iw, 1.7 * Iw][c]
-                    loop.fire_next_timer(at)
+                    batch = loop.collect_due_timers(at)
+                    if not batch:
+                        # clock values so large that at + resolution == at: the loop dispatches on a later look at the clock
+                        loop.fire_next_timer(at)
+                        batch = 1
                     loop.run_one_ready()
+                batch -= 1
                 dispatches += 1
                 ticked = [n for n in self.ntick if self.ntick[n] > tick_before[n]]
                 if ticked:
